@@ -1,6 +1,7 @@
 import TaskctlVerif.Proofs.Sched
 import TaskctlVerif.Model.Nested
 import TaskctlVerif.Model.Tree
+import TaskctlVerif.Proofs.SchedLoops
 /-!
 # C01 — a stage never starts before all of its dependencies have finished
 
@@ -319,3 +320,40 @@ example : (trun exTree tinit exTreeRun [1, 1]).g 0 = .inRun ∧
 example : (trun exTree tinit (exTreeRun ++ [⟨[1], .ret 1 true⟩]) [1]).g 1 = .inRun := by decide
 
 end Sched
+
+/-! ## Several loops over one graph (a pipeline included by several stages) - `Model/SchedLoops.lean` -/
+namespace SchedLoops
+open Sched
+
+/-- **C01 with several loops over one graph**: however many `Schedule` loops examine the stages of a
+pipeline at the same time (it is included by several stages that run together), under every
+interleaving of their individual status reads, condition evaluations, `canceled` writes and
+compare-and-swaps with each other and with the stage goroutines: a stage whose task has been started
+has every dependency done, skipped, or failed with allow_failure - and none of them waiting, running
+or inside `Run`. -/
+theorem C01_loops (c : Cfg) (as : List LAct) (s d : Nat) (hd : d ∈ c.deps s)
+    (hs : (lrun c linit as).g s ≠ .none) :
+    LSat c (lrun c linit as) d ∧ (lrun c linit as).status d ≠ .waiting ∧
+      (lrun c linit as).status d ≠ .running ∧ (lrun c linit as).g d ≠ .inRun := by
+  have h := linv_run c as
+  have hsat := h.started s hs d hd
+  have hr := h.g_run d
+  refine ⟨hsat, ?_⟩
+  unfold LSat at hsat
+  grind
+
+/-- a loop never overwrites the status of a stage another loop has started: what a started stage's
+dependencies were found to be stays true, so the `canceled` write of a slower loop cannot reach it -/
+theorem C01_loops_running_kept (c : Cfg) (as : List LAct) (s : Nat)
+    (h : (lrun c linit as).g s = .inRun) : (lrun c linit as).status s = .running :=
+  (linv_run c as).g_run s h
+
+-- two loops examine stage 1 (which depends on 0) at the same time; loop 0 starts it, the compare-and-swap of
+-- loop 1 fails: one start
+def exLoops : List LAct :=
+  [.visit 0 0, .decide 0, .ret 0 true, .visit 0 1, .visit 1 1, .read 0, .read 1, .decide 0, .decide 1]
+example : (lrun Sched.exCfg linit exLoops).g 1 = .inRun ∧ (lrun Sched.exCfg linit exLoops).starts 1 = 1 ∧
+    (lrun Sched.exCfg linit exLoops).pc 1 = .idle := by decide
+
+end SchedLoops
+
